@@ -52,8 +52,8 @@ theorem C16_source_read_only (env : Source.Env) (calls : List C15.SCall) (s : So
 theorem C16_dest_no_access_before_metadata (env : Dest.Env) (d : Dest.DestSt) (h : Hdr) (off : Nat)
     (data cks : List UInt8) (size : Nat) :
     (stateOf (Dest.handleWaitingForMissingMetadata env (some (.fd h off data)) d)).fs = d.fs ∧
-    (stateOf (Dest.handleEofWithoutPreviousMetadata env cks size d)).fs = d.fs :=
+    (stateOf (Dest.handleEofWithoutPreviousMetadata env ccNoError cks size d)).fs = d.fs :=
   ⟨C05.C05_fd_before_metadata_not_written env d h off data,
-   (C05.C05_no_write_outside_three_sites env d).2.1 cks size⟩
+   (C05.C05_no_write_outside_three_sites env d).2.1 ccNoError cks size⟩
 
 end Cfdp.C16
